@@ -435,6 +435,10 @@ BITS_CONSTRUCTED = [(D, 'ber.decoder::BitStringPayloadDecoder.valueDecoder[const
                     (D, 'ber.decoder::BitStringPayloadDecoder.indefLenValueDecoder[complete]')]
 for _p in ('C09', 'C01', 'C08'):
     PROPS[_p]['contracts'] = PROPS[_p]['contracts'] + BITS_CONSTRUCTED
+UB = 'contracts.univ_bits'
+FROM_OCTETS = [(UB, 'type.univ::BitString.fromOctetString[internal]')]
+for _p in ('C09', 'C01'):
+    PROPS[_p]['contracts'] = PROPS[_p]['contracts'] + FROM_OCTETS
 for _p in list(PROPS):
     NOT_CLAIMED.pop(_p, None)
 
